@@ -6,7 +6,10 @@
 (* returns on a freshly loaded font (measured by the harness, by value).   *)
 (* The judge replays the calls through FontCache!Step with the code's      *)
 (* cache keys (CodeKeys = TRUE, HasFV = HasImages = TRUE: the most         *)
-(* pessimistic font).                                                      *)
+(* pessimistic font; no failed load is stored, ReadCache and lookup cache  *)
+(* keyed by absolute position and by index, as the code does).  The "Init" *)
+(* event of a case carries the font descriptor (family, damaged tables,    *)
+(* layout of the lookups whose parsing is modelled).                       *)
 (*   differs = FALSE                    : conforms (the property)          *)
 (*   differs = TRUE and the model has a stale read : IMPURE line naming    *)
 (*        the slot(s) - a violation of C03 explained by the cache model    *)
@@ -22,11 +25,13 @@ tvars == <<l, st>>
 
 TInit == l = 1 /\ st = InitState
 
+FontOf(e) == [fam |-> e.a.font.fam, damaged |-> e.a.font.damaged, lookups |-> e.a.font.lookups]
+
 TNext ==
   /\ l <= Len(Rec)
   /\ l' = l + 1
   /\ LET e == Rec[l] IN
-     IF e.ev = "Init" THEN st' = InitState
+     IF e.ev = "Init" THEN st' = InitStateOf(FontOf(e))
      ELSE IF e.ev = "Repeat"
      THEN \* a pure operation (subset, instance, whole_font, decoding) run several times, in this
           \* and in another process: all runs must give the same bytes (digest + length)
